@@ -66,7 +66,7 @@ type graphCase struct {
 	Extra   map[string]string `json:"extra,omitempty"` // explicit file contents (foreign cases)
 }
 
-var fileLetters = []string{"a", "b", "c", "d", "e"}
+var fileLetters = []string{"a", "b", "c", "d", "e", "f"}
 
 // enumGraphs: all graphs on n files, each with an ordered import list (no repetition) of length
 // <= maxList, all files reachable from file 0, canonical under relabelling of files 1..n-1.
